@@ -133,6 +133,29 @@ def ref_unspendable(script, height, activation):
     return (n >= 1) and bool(script[0] == 0x6a)
 
 
+def ref_merkle_root(hashes):
+    '''Bitcoin merkle root, from the definition (hashlib only).'''
+    import hashlib
+    level = [bytes(h) for h in hashes]
+    while len(level) > 1:
+        if len(level) & 1:
+            level.append(level[-1])
+        level = [hashlib.sha256(hashlib.sha256(level[i] + level[i + 1]).digest()).digest()
+                 for i in range(0, len(level), 2)]
+    return level[0]
+
+
+def ref_fold(leaf, branch, index):
+    '''Fold a merkle branch (hashlib only).'''
+    import hashlib
+    h = bytes(leaf)
+    for e in branch:
+        e = bytes(e)
+        h = hashlib.sha256(hashlib.sha256((e + h) if index & 1 else (h + e)).digest()).digest()
+        index >>= 1
+    return h
+
+
 def ref_hashX(script):
     from electrumx.lib.hash import sha256
     return sha256(script)[:HASHX_LEN]
@@ -203,6 +226,7 @@ class Sim:
         self.tx_hashes = []        # every (name, tx hash) ever generated (for distinctness)
         self.collide = set()       # frozenset({name, name}): pairs whose 4-byte prefixes may collide
         self.reserved = []         # outputs spent by prepared (mempool) transactions
+        self.merkle_headers = False   # put the real merkle root of the tx hashes into the header (concrete mode)
         self.nonce = 0
         self.db = self.bp = self.env = None
         self.crashed = False
@@ -302,6 +326,9 @@ class Sim:
             rtxs.append(rt)
             pairs.append((tx, txhash))
             txnum += 1
+        if self.merkle_headers:
+            header = header[:36] + ref_merkle_root([bytes(h) for _t, h in pairs]) + header[68:]
+            bhash = double_sha256(header)
         size = 1000 + 7 * height + self.nonce
         blk = RBlock(height, header, size, rtxs, bhash, StubBlock(height, header, size, pairs))
         chain.append(blk)
